@@ -74,7 +74,7 @@ def mixcase(rng, s):
 
 
 def gen_schema(rng, handlers=False, max_types=5, section_dts=("zcv.dt.wrap",),
-               value_dts=None, allow_required_defaults=False, keytypes=None, derive_bias=0.3):
+               value_dts=None, allow_required_defaults=False, keytypes=None, derive_bias=0.3, boost=0.1):
     """-> AST dict (see module docstring of zcv.refload for the reading of it)."""
     value_dts = value_dts or KEY_DATATYPES
     keytypes = keytypes or KEYTYPES
@@ -141,7 +141,44 @@ def gen_schema(rng, handlers=False, max_types=5, section_dts=("zcv.dt.wrap",),
                                 handlers, hcount, value_dts, False, allow_required_defaults,
                                 prefer_sections=True)
     prune_ambiguous(ast, rng)
+    if rng.random() < boost:
+        boost_rekey(rng, ast)
     return ast
+
+
+def boost_rekey(rng, ast):
+    """Make the 'wildcard defaults re-keyed under a derived key type' clause occur: a base type
+    with keyed defaults written in mixed case, a type derived from it (chain 2 or 3) with a
+    different key type, and top-level slots for both."""
+    kts = [k for k in ("basic-key", "ipaddr-or-hostname", "identifier") ]
+    bkt = rng.choice(kts)
+    dkt = rng.choice([k for k in ("identifier", "basic-key") if k != bkt])
+    multi = rng.random() < 0.5
+    keys = rng.sample(["Ky", "KZ", "kx", "Mixed_Case", "UP"], rng.choice([1, 2, 3]))
+    if bkt != "identifier":
+        keys = [k for k in keys if "_" not in k] or ["Ky"]
+    defaults = []
+    for k in keys:
+        for _ in range(2 if multi and rng.random() < 0.5 else 1):
+            defaults.append([k, rng.choice(["v", "w", "two words", "7"])])
+    wild = {"kind": "multikey" if multi else "key", "name": "+", "attribute": "wildb", "required": False,
+            "handler": None, "datatype": rng.choice(["string", "string", "integer"]) if all(d[1] == "7" for d in defaults) else "string",
+            "defaults": defaults}
+    ast["types"].append({"name": "tbb", "keytype": None if bkt == "basic-key" else bkt, "datatype": None,
+                         "implements": None, "extends": None, "items": [wild]})
+    mid = "tbb"
+    if rng.random() < 0.4:
+        ast["types"].append({"name": "tbm", "keytype": None, "datatype": rng.choice([None, "zcv.dt.wrap"]),
+                             "implements": None, "extends": "Tbb", "items": [
+                                 {"kind": "key", "name": "alpha", "attribute": None, "required": False,
+                                  "handler": None, "datatype": "string", "default": "d"}]})
+        mid = "tbm"
+    ast["types"].append({"name": "tdd", "keytype": dkt, "datatype": None, "implements": None,
+                         "extends": mid, "items": []})
+    ast["items"].append({"kind": "multisection", "name": "*", "attribute": "boosted", "required": False,
+                         "handler": None, "type": "tdd"})
+    ast["items"].append({"kind": "multisection", "name": "*", "attribute": "boostedbase", "required": False,
+                         "handler": None, "type": "tbb"})
 
 
 def prune_ambiguous(ast, rng, keep=0.08):
@@ -247,6 +284,8 @@ def gen_items(rng, kt, names, attrs, avail_types, n, handlers, hcount, value_dts
             if kind == "key":
                 if not it["required"] and rng.random() < 0.5:
                     it["default"] = rng.choice(GOOD[it["datatype"]])
+                    if it["datatype"] in ("string", "string-list", "null") and rng.random() < 0.25:
+                        it["default"] = ""
             else:
                 if not it["required"] or allow_required_defaults:
                     it["defaults"] = [rng.choice(GOOD[it["datatype"]])
